@@ -8,9 +8,9 @@ use explorer::{Acc, Ctx};
 use refmodel::picture::{case_unspecified, render, tokenize, Tok, Ty};
 use sqldatetime::{Error, Formatter};
 
-pub const PIC_ALPHABET: [&[u8]; 40] = [
+pub const PIC_ALPHABET: [&[u8]; 42] = [
     b"A", b"D", b"F", b"H", b"I", b"M", b"N", b"O", b"P", b"S", b"T", b"W", b"Y", b"a", b"d", b"f", b"h", b"i", b"m", b"n", b"o", b"p", b"s", b"t", b"w", b"y", b"0", b"1",
-    b"2", b"4", b"9", b"-", b":", b"/", b"\\", b",", b".", b";", b" ", "\u{e9}".as_bytes(),
+    b"2", b"4", b"9", b"-", b":", b"/", b"\\", b",", b".", b";", b" ", "\u{e9}".as_bytes(), b"\t", b"\n",
 ];
 
 /// Compare one picture string with the reference tokenizer and, on acceptance, the rendering of
@@ -66,10 +66,10 @@ pub fn run(ctx: &mut Ctx) {
     let n = strings::count_upto(k, max_len);
     ctx.rule("a case is one picture string at a distinct enumeration index; non-trivial = the string is rejected, or it is accepted and consists of more than one token (a token-boundary decision is exercised)");
     ctx.assume("reference: table-driven case-insensitive longest-match tokenizer over the documented token list (literal T upper-case only, at most 36 tokens) + reference renderer; probe 2021-04-22 13:07:09.123456 has pairwise distinct field renderings");
-    ctx.bound("string_length", json!(format!("every string of length 0..={max_len} over the 40-symbol alphabet")));
+    ctx.bound("string_length", json!(format!("every string of length 0..={max_len} over the 42-symbol alphabet")));
     let (probe, pf) = (&probe, &pf);
 
-    let r = ctx.sweep("all_short_strings", "every string up to the length bound over the 40-symbol picture alphabet", n, 1 << 16, |range, acc| {
+    let r = ctx.sweep("all_short_strings", "every string up to the length bound over the 42-symbol picture alphabet (letters of the tokens in both cases, digits, punctuation, blank, tab, newline, one multi-byte character)", n, 1 << 16, |range, acc| {
         let mut sym = Vec::new();
         let mut buf = Vec::new();
         strings::decode(range.start, k, max_len, &mut sym);
@@ -119,6 +119,42 @@ pub fn run(ctx: &mut Ctx) {
         let pic = match idx % 3 { 0 => " ".repeat(n), 1 => format!("YYYY{}MM", " ".repeat(n)), _ => format!("DD-{}", " ".repeat(n)) };
         acc.states += 1;
         check_picture(acc, idx, pic.as_bytes(), probe, pf);
+    });
+    ctx.require(&r, &["accepted"]);
+
+    // blank runs around every power of two (a narrowed run-length counter wraps there)
+    let top: u32 = if ctx.thorough() { 22 } else { 17 };
+    let mut lens: Vec<usize> = Vec::new();
+    for e in 8..=top { for d in [-1i64, 0, 1] { lens.push(((1i64 << e) + d) as usize); } }
+    ctx.bound("blank_runs_powers_of_two", json!(format!("2^e - 1, 2^e, 2^e + 1 for e in 8..={top}")));
+    let lens_r = &lens;
+    let r = ctx.sweep_each("blank_runs_powers_of_two", "blank runs of length 2^e - 1, 2^e, 2^e + 1 between two tokens", lens.len() as u64, 1, |idx, acc| {
+        let n = lens_r[idx as usize];
+        acc.states += 1;
+        check_picture(acc, idx, format!("DD{}MI", " ".repeat(n)).as_bytes(), probe, pf);
+    });
+    ctx.require(&r, &["accepted"]);
+
+    // bounded language over TOKENS: every sequence of up to 6 (thorough 7) tokens of a reduced alphabet,
+    // concatenated without separators other than the punctuation tokens themselves (prefix / suffix
+    // special cases of realistic pictures such as YYYY-MM-DD followed by another D live here)
+    let toks: [&str; 16] = ["YYYY", "YY", "MM", "MON", "DD", "DDD", "D", "DY", "HH24", "HH", "MI", "SS", "FF", "-", ":", " "];
+    let tl: u32 = if ctx.thorough() { 7 } else { 6 };
+    let nk = toks.len() as u64;
+    let nseq = explorer::strings::count_upto(nk, tl);
+    ctx.bound("token_language", json!(format!("every sequence of 0..={tl} tokens over {toks:?}")));
+    let r = ctx.sweep("all_short_token_sequences", "every sequence of tokens up to the length bound over a 16-token alphabet (re-lexed by the reference tokenizer)", nseq, 1 << 14, |range, acc| {
+        let mut sym = Vec::new();
+        let mut buf: Vec<u8> = Vec::new();
+        explorer::strings::decode(range.start, nk, tl, &mut sym);
+        let cnt = range.end - range.start;
+        for idx in range {
+            buf.clear();
+            for &k in &sym { buf.extend_from_slice(toks[k as usize].as_bytes()); }
+            check_picture(acc, idx, &buf, probe, pf);
+            explorer::strings::increment(&mut sym, nk as u8);
+        }
+        acc.states += cnt;
     });
     ctx.require(&r, &["accepted"]);
 }
